@@ -17,7 +17,8 @@ fn rep(class: &str, salt: usize) -> &'static str {
         "cr" => "\r",
         "ctl" => pick(&["\u{1}", "\t", "\u{8}", "\u{c}", "\u{1f}", "\u{1b}"]),
         "del" => "\u{7f}",
-        "b2" => pick(&["\u{e9}", "\u{80}", "\u{7ff}", "\u{301}"]),
+        // (incl. the C1 controls: U+0085 NEXT LINE and U+009F are two-byte characters that some consider line breaks)
+        "b2" => pick(&["\u{e9}", "\u{80}", "\u{7ff}", "\u{301}", "\u{85}", "\u{9f}"]),
         "b3" => pick(&["\u{4e16}", "\u{800}", "\u{ffff}", "\u{fffd}"]),
         "b4" => pick(&["\u{1F600}", "\u{10000}", "\u{10FFFF}"]),
         _ => pick(&["\u{2028}", "\u{2029}"]),
